@@ -2,26 +2,35 @@
 # Model of the connection life cycle and the peer-connection registry (C10, and C11's connect-back)
 
 Transcribes, for the code **with** `fixes/C10-accept-connected-first.patch`,
-`fixes/C10-connect-cancel-or-closed.patch` and `fixes/C11-attempt-cleanup.patch` applied:
+`fixes/C10-connect-cancel-or-closed.patch`, `fixes/C11-attempt-cleanup.patch`,
+`fixes/C16-disconnect-releases-stream-first.patch`, `fixes/C16-closing-cancellation-arrives-before-closed.patch`,
+`fixes/C10-accepted-registered-when-reported.patch` and `fixes/C10-connecting-notification-cancel.patch` applied:
 
-* `Connection.set_state` (network/connection.py:105-108) — every state change is reported;
-* `ListeningConnection.accept` (173-189: CONNECTED is reported, then `on_peer_accepted` runs);
-* `DataConnection.connect` (219-262) / `disconnect` (264-298: early return when CLOSING/CLOSED, CLOSING,
-  close the writer, wait, `finally` CLOSED);
-* `_read` / `_send` error arms (342-384, 467-486), `send_message` (488-521) and `queue_message` (452-459: a
-  task that runs `send_message`, listed in `_queued_messages` until it is done; `disconnect` cancels the
-  listed tasks right after it reported CLOSING, 277 / 581-583);
-* `_message_reader_loop` (312-340);
+* `Connection.set_state` (network/connection.py) — every state change is reported: `Network.on_state_changed` runs the
+  network's own bookkeeping (registry) and then **awaits every listener** of `ConnectionStateChangedEvent`;
+* `ListeningConnection.accept` (CONNECTED is reported — which registers the connection —, then `on_peer_accepted` runs);
+* `DataConnection.connect` / `disconnect` (early return when CLOSING/CLOSED, CLOSING, cancel the queued sends, close
+  the writer — or yield once when the transport is already gone —, wait, release the streams, `finally` CLOSED);
+* `_read` / `_send` error arms, `send_message`, `queue_message` (a task that runs `send_message`, listed in
+  `_queued_messages` until it is done; `disconnect` cancels the listed tasks right after it reported CLOSING),
+  the raw data paths of file connections `send_data` (no `_is_closing` guard) / `receive_data`;
+* `_message_reader_loop`;
 * the registry sites of network/network.py: append on creation (`_make_direct_connection`,
-  `_handle_connect_to_peer`, `on_peer_accepted`), removal on CLOSED (`_on_peer_connection_state_changed`);
+  `_handle_connect_to_peer`), append when an accepted connection is reported CONNECTED, removal when CLOSED is
+  reported (`_on_peer_connection_state_changed`);
 * `_make_direct_connection`, `_handle_connect_to_peer` (connect, send the init message, finalise; on a
   `NetworkError` the connect-back path reports `CannotConnect` to the server) and `on_peer_accepted`.
 
-Granularity: asyncio is cooperative, so the code between two *real* suspension points runs atomically.
-The real suspension points of the anchored code are: `open_connection`, `drain`, `wait_closed`, the
-stream reads, and the `async_timeout` timers around them.  One `COp` is one completion of such a
-suspension (or one API call) and `stepK` runs the woken code up to the next quiescent point.  The control
-state `K` of a connection is finite; what is appended to the event list is a function of `K` and the op.
+Granularity: asyncio is cooperative, so the code between two suspension points runs atomically.  The suspension
+points of the anchored code are: `open_connection`, `drain`, `wait_closed`, the stream reads, the `async_timeout`
+timers around them — and **every state notification**, because a listener may suspend.  One `FOp` is one completion
+of such a suspension (or one API call); `stepF` runs the woken code up to the next suspension point.  A state
+notification is therefore a stopping point of its own: the task that made it stands in `att = noteConnecting /
+noteConnected` (the connect attempt / the accept handler) or in `cph = noteClosing / noteClosed` (the task that runs
+`disconnect` past its guard) until `noteA` / `noteC` says its listeners are done; `parkA` / `parkC` says that a
+listener has suspended (the loop goes on with whatever else is ready).  Everything else may be delivered in between.
+`stepK` / `Op.at` is the special case "no listener suspends": the op, then every outstanding notification passes.
+The control state `K` of a connection is finite; what is appended to the event list is a function of `K` and the op.
 -/
 namespace AioslskVerif.Conn
 
@@ -42,22 +51,40 @@ inductive Origin
   | server      -- the `ServerConnection`
   deriving DecidableEq, Repr
 
-/-- where the task that owns the connection set-up (connect attempt / accept handler) is parked -/
+/-- where the task that owns the connection set-up (connect attempt / accept handler) stands -/
 inductive Att
-  | opening       -- in `asyncio.open_connection`
-  | sendingInit   -- in `drain()` of the init message (PeerInit / PeerPierceFirewall)
-  | awaitInit     -- accept handler reading the init message
-  | closing       -- in `wait_closed()` of a `disconnect` the attempt itself started
-  | idle          -- finished (returned, raised or was cancelled)
+  | noteConnecting -- in `connect()`: the listeners of its CONNECTING notification are running
+  | opening        -- in `asyncio.open_connection`
+  | noteConnected  -- in `connect()` / `accept()`: the listeners of its CONNECTED notification are running
+  | sendingInit    -- in `drain()` of the init message (PeerInit / PeerPierceFirewall)
+  | awaitInit      -- accept handler reading the init message
+  | closing        -- runs a `disconnect` it started itself (see `closer`, `cph`)
+  | idle           -- finished (returned, raised or was cancelled)
+  | idleQuiet      -- returned normally, but its init message was never written: the connection was closing by
+                   -- the time the CONNECTED listeners were done (`send_message` returns silently then)
   deriving DecidableEq, Repr
 
-/-- the task parked in `wait_closed()` between CLOSING and CLOSED, by what it does afterwards -/
+/-- the attempt / accept handler is over -/
+def Att.over (a : Att) : Bool := a == .idle || a == .idleQuiet
+
+/-- the task that runs `disconnect` past its guard, by what it does once CLOSED has been reported -/
 inductive Closer
   | none
-  | other         -- reader loop, accept handler, or a caller of `disconnect()`: nothing observable follows
+  | other         -- reader loop / raw read, accept handler, or a caller of `disconnect()`: nothing observable follows
   | attempt       -- the connect attempt: raises (a `NetworkError`) afterwards
-  | attemptC      -- the cancelled direct attempt (`except CancelledError: disconnect; raise`)
-  | sender        -- a caller of `send_message`: gets `ConnectionWriteError` afterwards
+  | attemptC      -- the cancelled attempt (re-raises `CancelledError`)
+  | sender        -- a caller of `send_message` / `send_data`: gets `ConnectionWriteError` afterwards
+  | queue         -- a `queue_message` task: `_cancel_queued_messages` cancels it (itself) once CLOSING has been
+                  -- reported; the cancellation is pending until the task really suspends
+  | queueC        -- … the cancellation has been delivered: the task ends cancelled
+  deriving DecidableEq, Repr
+
+/-- where that task stands -/
+inductive CPhase
+  | noteClosing   -- the listeners of its CLOSING notification are running; the writer has not been touched yet
+  | noteClosingNW -- the same for a connection without a writer (it was still CONNECTING)
+  | waiting       -- in `wait_closed()`
+  | noteClosed    -- the listeners of its CLOSED notification are running (also the value when nobody is closing)
   deriving DecidableEq, Repr
 
 inductive AttRes | ok | fail | cancelled
@@ -73,23 +100,28 @@ inductive Ev
   | delivered                      -- MessageReceivedEvent carrying this connection
   | init (requested : Bool)        -- PeerInitializedEvent
   | wrote                          -- bytes of a `send_message` reached the socket
+  | wroteRaw                       -- bytes of a `send_data` (file connection) reached the socket
+  | recvData                       -- a `receive_data` call returned bytes of the connection
   | cc                             -- `CannotConnect` for this connection's ticket written to the server
   | attRes (r : AttRes)            -- how the attempt task ended
-  | sendRes (returned : Bool)      -- a `send_message` call returned (true) / raised ConnectionWriteError
+  | sendRes (returned : Bool)      -- a `send_message` / `send_data` call returned (true) / raised ConnectionWriteError
   | queueRes (r : QRes)            -- a `queue_message` task ended
   deriving DecidableEq, Repr
 
 structure K where
   origin : Origin
-  typF : Bool           -- connection type 'F' (no reader loop after initialisation)
+  typF : Bool           -- connection type 'F' (no reader loop after initialisation; the raw data calls are used)
   slow : Bool           -- configuration: `wait_closed()` of this socket suspends
   st : CState           -- `Connection.state`
   att : Att
-  reader : Bool         -- `_message_reader_loop` running (parked in a read)
-  sock : Bool           -- `_writer` present and the socket not closed
+  reader : Bool         -- `_message_reader_loop` (type F: a `receive_data` call) parked in a stream read
+  sock : Bool           -- `_writer` present and our side of the socket not closed / not lost
   closer : Closer
-  sendParked : Bool     -- a `send_message` parked in `drain()`
-  qParked : Bool        -- a `queue_message` task parked in `drain()` (pending output, listed in `_queued_messages`)
+  cph : CPhase          -- meaningful while `closer ≠ none`
+  cr : Reason           -- the reason that `disconnect` was called with (reported again with CLOSED)
+  sendParked : Bool     -- a `send_message` / `send_data` parked in `drain()`
+  qParked : Bool        -- a `queue_message` task parked in `drain()` (pending output, listed in `_queued_messages`);
+                        -- with `sock = false`: woken by the loss of the transport, has not run yet
   registered : Bool     -- member of `Network.peer_connections`
   deriving DecidableEq, Repr
 
@@ -100,7 +132,8 @@ inductive First | initP | initF | pierceP | pierceF | pierceUnknown | undecodabl
   deriving DecidableEq, Repr
 
 inductive COp
-  | connectOk (m : SendMode)     -- open_connection returns; `m`: what the write/drain of the init message does
+  | connectOk (m : SendMode)     -- open_connection returns (`m`, for `stepK` only: what the write/drain of the init
+                                 -- message does once the CONNECTED listeners are done)
   | connectFail                  -- open_connection raises (refused)
   | connectTimeout               -- the connect timer fires
   | cancelAttempt                -- CancelledError delivered to the attempt task where it is parked
@@ -116,6 +149,19 @@ inductive COp
   | queue (m : SendMode)         -- somebody calls `queue_message`; the task runs up to its first suspension
   | queueTimeout                 -- the 10 s send timer of the parked `queue_message` task fires
   | restart                      -- `connect()` is called again (server connection only)
+  | sendData (m : SendMode)      -- file connection: somebody calls `send_data`
+  | recvData                     -- file connection: somebody calls `receive_data`
+  | data                         -- file connection: raw bytes arrive
+  deriving DecidableEq, Repr
+
+/-- one step of the fine-grained model -/
+inductive FOp
+  | op (o : COp)
+  | noteA (m : SendMode)   -- the listeners of the attempt's outstanding notification are done (`m`: what the write of
+                           -- the init message does, when that is what follows)
+  | noteC                  -- the listeners of the closing task's outstanding notification are done
+  | parkA                  -- a listener of the attempt's outstanding notification suspends
+  | parkC                  -- a listener of the closing task's outstanding notification suspends
   deriving DecidableEq, Repr
 
 /-- the attempt task ends; a failed connect-back reports CannotConnect (network.py `_handle_connect_to_peer`) -/
@@ -123,126 +169,194 @@ def attemptOver (k : K) (r : AttRes) : K × List Ev :=
   ({ k with att := .idle },
    [.attRes r] ++ (if k.origin = .back ∧ r = .fail then [.cc] else []))
 
-/-- `_finalize_peer_connection` + PeerInitializedEvent, attempt returns -/
+/-- `_finalize_peer_connection` (the reader loop of a P connection starts; it ends at once when the connection is
+closing) + PeerInitializedEvent, attempt returns -/
 def finalizeOut (k : K) : K × List Ev :=
-  ({ k with att := .idle, reader := !k.typF }, [.init (k.origin = .direct), .attRes .ok])
+  ({ k with att := .idle, reader := !k.typF && k.st == .connected }, [.init (k.origin = .direct), .attRes .ok])
 
-/-- our side of the socket went away: every task parked on it wakes up and finds the connection
-closing (their own `disconnect` returns early) -/
-def wake (k : K) : K × List Ev :=
+/-- the same when `send_message` skipped the init message because the connection was closing -/
+def finalizeQuiet (k : K) : K × List Ev :=
+  ({ k with att := .idleQuiet, reader := false }, [.init (k.origin = .direct), .attRes .ok])
+
+/-- the transport went away under the tasks parked on it (peer reset, failed write): all of them wake, find the
+connection closing and give up — except a parked queued send, which has not run yet when `disconnect` cancels it -/
+def wakeGone (k : K) : K × List Ev :=
   let k := { k with reader := false, att := if k.att = .awaitInit then .idle else k.att }
   let (k, e1) := if k.att = .sendingInit then attemptOver k .fail else (k, [])
   let (k, e2) := if k.sendParked then ({ k with sendParked := false }, [Ev.sendRes false]) else (k, [])
-  -- `_cancel_queued_messages` (connection.py:277): the parked queue task is cancelled
-  let (k, e3) := if k.qParked then ({ k with qParked := false }, [Ev.queueRes .cancelled]) else (k, [])
-  (k, e1 ++ e2 ++ e3)
+  (k, e1 ++ e2)
 
-/-- what the task that ran `disconnect` does once CLOSED has been reported -/
+/-- `_cancel_queued_messages` and `writer.close()` (or the single yield when the transport is gone already): a
+parked queued send is cancelled, every other task parked on the socket wakes up and finds the connection closing
+(their own `disconnect` returns early) -/
+def wake (k : K) : K × List Ev :=
+  let (k, e) := wakeGone k
+  let (k, e3) := if k.qParked then ({ k with qParked := false }, [Ev.queueRes .cancelled]) else (k, [])
+  (k, e ++ e3)
+
+/-- the transport goes away while the CLOSING notification of somebody's `disconnect` is outstanding: every parked
+task runs now; the queued sends have not been cancelled yet, a parked one gets `ConnectionWriteError` -/
+def wakeAll (k : K) : K × List Ev :=
+  let (k, e) := wakeGone k
+  let (k, e3) := if k.qParked then ({ k with qParked := false }, [Ev.queueRes .err]) else (k, [])
+  (k, e ++ e3)
+
+/-- what the task that called `disconnect` does once that call has returned -/
 def cont (k : K) : Closer → K × List Ev
   | .none | .other => (k, [])
   | .attempt => attemptOver k .fail
   | .attemptC => attemptOver k .cancelled
   | .sender => (k, [.sendRes false])
-
-/-- `disconnect(r)` on a CONNECTED connection, run by task `who` (connection.py:264-298) -/
-def beginClose (k : K) (r : Reason) (who : Closer) : K × List Ev :=
-  let (k, ew) := wake { k with st := .closing, sock := false }
-  if k.slow then
-    ({ k with closer := who, att := if who = .attempt ∨ who = .attemptC then .closing else k.att },
-     [.st .closing r] ++ ew)
-  else
-    let (k, ec) := cont { k with st := .closed, registered := false } who
-    (k, [.st .closing r, .st .closed r] ++ ew ++ ec)
-
-/-- `disconnect(r)` run by the `queue_message` task itself (`_send` error arms, connection.py:478-484): after
-CLOSING `_cancel_queued_messages` cancels the very task that is running `disconnect`.  When `wait_closed()`
-does not suspend the task never sees the cancellation: CLOSED, then `ConnectionWriteError`.  When it does
-suspend, the pending cancellation is delivered there at once and the `finally` arm reports CLOSED without
-waiting for the transport (the task ends cancelled).  (`k.qParked` here is ANOTHER queued send that is parked: it
-is cancelled like every listed task; the callers clear the flag when the parked task itself is the one closing.) -/
-def beginCloseQ (k : K) (r : Reason) : K × List Ev :=
-  let (k, ew) := wake { k with st := .closing, sock := false }
-  ({ k with st := .closed, registered := false },
-   [.st .closing r] ++ ew ++ [.st .closed r, .queueRes (if k.slow then .cancelled else .err)])
-
-/-- `disconnect(r)` on a CONNECTING connection: there is no writer, nothing to wait for -/
-def closeConnecting (k : K) (r : Reason) : K × List Ev :=
-  if k.st = .connecting then
-    ({ k with st := .closed, registered := false }, [.st .closing r, .st .closed r])
-  else (k, [])
+  | .queue => (k, [.queueRes .err])
+  | .queueC => (k, [.queueRes .cancelled])
 
 def andThen (a : K × List Ev) (f : K → K × List Ev) : K × List Ev :=
   let (k, e) := f a.1
   (k, a.2 ++ e)
 
-def stepK (k : K) : COp → Option (K × List Ev)
-  | .connectOk m =>
+/-- task `who` calls `disconnect(r)`: the guard, else CLOSING is reported — and its listeners run -/
+def startClose (k : K) (r : Reason) (who : Closer) : K × List Ev :=
+  match k.st with
+  | .closing | .closed => cont k who
+  | .uninit => (k, [])
+  | .connecting =>
+    ({ k with st := .closing, closer := who, cph := .noteClosingNW, cr := r,
+              att := if who = .attempt ∨ who = .attemptC then .closing else k.att }, [.st .closing r])
+  | .connected =>
+    ({ k with st := .closing, closer := who, cph := .noteClosing, cr := r,
+              att := if who = .attempt ∨ who = .attemptC then .closing else k.att }, [.st .closing r])
+
+/-- the same when the transport has just gone away (a write of `who` failed / the peer reset the connection and
+`who` is the first task to notice) -/
+def closeGone (k : K) (r : Reason) (who : Closer) : K × List Ev :=
+  let (k1, ew) := wakeGone { k with sock := false }
+  let (k2, ec) := startClose k1 r who
+  (k2, ec ++ ew)
+
+/-- the streams are released, CLOSED is reported (the registry entry goes before the listeners run) -/
+def reportClosed (k : K) : K × List Ev :=
+  ({ k with st := .closed, registered := false, cph := .noteClosed, sock := false }, [.st .closed k.cr])
+
+/-- the closing task goes on after a notification -/
+def noteC (k : K) : Option (K × List Ev) :=
+  if k.closer = .none then none
+  else match k.cph with
+    | .noteClosingNW => some (reportClosed k)
+    | .noteClosing =>
+      let gone := !k.sock
+      let (k1, ew) := wake { k with sock := false }
+      if k1.closer = .queue then
+        -- the queued task cancelled itself: delivered where it suspends next — the yield (transport gone) or
+        -- `wait_closed()` (when that suspends); the `finally` arm reports CLOSED at once
+        if gone ∨ k1.slow then some (andThen ({ k1 with closer := .queueC }, ew) reportClosed)
+        else some (andThen (k1, ew) reportClosed)
+      else if k1.slow then some ({ k1 with cph := .waiting }, ew)
+      else some (andThen (k1, ew) reportClosed)
+    | .waiting => none
+    | .noteClosed => some (cont { k with closer := .none, cr := .unknown } k.closer)
+
+/-- a listener of the closing task's outstanding notification suspends -/
+def parkC (k : K) : Option (K × List Ev) :=
+  if k.closer = .none then none
+  else match k.cph with
+    | .waiting => none
+    | .noteClosing =>
+      -- whoever was woken by the loss of the transport runs now
+      if !k.sock && k.qParked then some ({ k with qParked := false }, [.queueRes .err]) else some (k, [])
+    | .noteClosingNW => some (k, [])
+    | .noteClosed =>
+      -- a pending self-cancellation arrives inside the listener
+      if k.closer = .queue then some ({ k with closer := .none, cr := .unknown }, [.queueRes .cancelled])
+      else some (k, [])
+
+/-- the attempt / accept handler goes on after a notification -/
+def noteA (k : K) (m : SendMode) : Option (K × List Ev) :=
+  match k.att with
+  | .noteConnecting => some ({ k with att := .opening }, [])
+  | .noteConnected =>
+    match k.origin with
+    | .incoming => some ({ k with att := if k.sock then .awaitInit else .idle }, [])   -- `on_peer_accepted` reads
+    | .server => some ({ k with att := .idle, reader := k.st == .connected }, [.attRes .ok])
+    | _ =>
+      if k.st = .connected then
+        match m with
+        | .ok => some (andThen (k, [.wrote]) finalizeOut)
+        | .block => some ({ k with att := .sendingInit }, [.wrote])
+        | .fail => some (closeGone { k with att := .idle } .writeError .attempt)
+      else some (finalizeQuiet k)
+  | _ => none
+
+def parkA (k : K) : Option (K × List Ev) :=
+  if k.att = .noteConnecting ∨ k.att = .noteConnected then some (k, []) else none
+
+/-- whoever reads (reader loop, raw read, accept handler) has been woken and is no longer parked -/
+def unpark (k : K) : K :=
+  { k with reader := false, att := if k.att = .awaitInit then .idle else k.att }
+
+def stepOp (k : K) : COp → Option (K × List Ev)
+  | .connectOk _ =>
     if k.att ≠ .opening then none
     else if k.st ≠ .connecting then
-      -- `disconnect` ran while the socket was being opened: drop the new socket, raise (connection.py:251-258)
+      -- `disconnect` ran while the socket was being opened: drop the new socket, raise
       some (attemptOver k .fail)
-    else
-      let k := { k with st := .connected, sock := true }
-      let e := [Ev.st .connected .unknown]
-      match k.origin with
-      | .incoming => none
-      | .server => some ({ k with att := .idle, reader := true }, e ++ [.attRes .ok])
-      | _ =>
-        match m with
-        | .ok => some (andThen (k, e ++ [.wrote]) finalizeOut)
-        | .block => some ({ k with att := .sendingInit }, e ++ [.wrote])
-        | .fail => some (andThen ({ k with att := .idle }, e) (beginClose · .writeError .attempt))
+    else if k.origin = .incoming then none
+    else some ({ k with st := .connected, sock := true, att := .noteConnected }, [.st .connected .unknown])
   | .connectFail | .connectTimeout =>
-    if k.att ≠ .opening then none
-    else some (andThen (closeConnecting k .connectFailed) (attemptOver · .fail))
+    if k.att ≠ .opening then none else some (startClose k .connectFailed .attempt)
   | .cancelAttempt =>
     if k.origin = .incoming then none
     else match k.att with
-      | .opening => some (andThen (closeConnecting k .connectFailed) (attemptOver · .cancelled))
-      | .sendingInit =>
-        if k.origin = .direct then
-          some (beginClose { k with att := .idle } .requested .attemptC)
+      | .noteConnecting | .opening => some (startClose k .connectFailed .attemptC)
+      | .noteConnected | .sendingInit =>
+        if k.origin = .direct then some (startClose { k with att := .idle } .requested .attemptC)
         else some (attemptOver k .cancelled)
       | .closing =>
-        some (attemptOver { k with st := .closed, registered := false, closer := .none } .cancelled
-          |> fun (k', e) => (k', [Ev.st .closed .unknown] ++ e))
+        match k.cph with
+        | .noteClosing | .noteClosingNW => noteC { k with closer := .attemptC }  -- lands in the listener; `finally` goes on
+        | .waiting => some (reportClosed { k with closer := .attemptC })
+        | .noteClosed => some (cont { k with closer := .none, cr := .unknown } .attemptC)
       | _ => none
   | .firstFrame f =>
     if k.att ≠ .awaitInit then none
     else match f with
-      | .initP => some ({ k with typF := false, att := .idle, reader := true }, [.init false])
+      | .initP => some ({ k with typF := false, att := .idle, reader := k.st == .connected }, [.init false])
       | .initF => some ({ k with typF := true, att := .idle, reader := false }, [.init false])
-      | .pierceP => some ({ k with typF := false, att := .idle, reader := true }, [.init true])
+      | .pierceP => some ({ k with typF := false, att := .idle, reader := k.st == .connected }, [.init true])
       | .pierceF => some ({ k with typF := true, att := .idle, reader := false }, [.init true])
-      | .pierceUnknown => some (beginClose { k with att := .idle } .requested .other)
-      | .undecodable => some (beginClose { k with att := .idle } .readError .other)
+      | .pierceUnknown => some (startClose { k with att := .idle } .requested .other)
+      | .undecodable => some (startClose { k with att := .idle } .readError .other)
   | .frame good =>
-    if k.reader ∧ k.sock then some (k, if good then [.delivered] else []) else none
+    if k.reader ∧ k.sock ∧ ¬ k.typF then
+      if k.st = .connected then some (k, if good then [.delivered] else [])
+      else some ({ k with reader := false }, [])     -- closing: the message is skipped, the loop ends
+    else none
+  | .data =>
+    if k.reader ∧ k.sock ∧ k.typF then some ({ k with reader := false }, [.recvData]) else none
   | .partialEof =>
-    if (k.reader ∨ k.att = .awaitInit) ∧ k.sock then some (beginClose k .readError .other) else none
+    if (k.reader ∨ k.att = .awaitInit) ∧ k.sock ∧ ¬ k.typF then some (startClose (unpark k) .readError .other) else none
   | .eof =>
-    if (k.reader ∨ k.att = .awaitInit) ∧ k.sock then some (beginClose k .eof .other) else none
+    if (k.reader ∨ k.att = .awaitInit) ∧ k.sock then some (startClose (unpark k) .eof .other) else none
   | .readTimeout =>
-    if (k.reader ∨ k.att = .awaitInit) ∧ k.sock then some (beginClose k .timeout .other) else none
+    if (k.reader ∨ k.att = .awaitInit) ∧ k.sock then some (startClose (unpark k) .timeout .other) else none
   | .reset =>
     if ¬ k.sock then none
-    else if k.reader ∨ k.att = .awaitInit then some (beginClose k .readError .other)
-    else if k.att = .sendingInit then some (beginClose { k with att := .idle } .writeError .attempt)
+    else if k.st ≠ .connected then
+      if k.reader ∨ k.att = .awaitInit ∨ k.att = .sendingInit ∨ k.sendParked ∨ k.qParked then
+        some (wakeAll { k with sock := false })
+      else none
+    else if k.reader ∨ k.att = .awaitInit then some (closeGone (unpark k) .readError .other)
+    else if k.att = .sendingInit then some (closeGone { k with att := .idle } .writeError .attempt)
     else if k.sendParked ∧ k.qParked then none     -- which drain waiter wakes first is not part of the control state
-    else if k.sendParked then some (beginClose { k with sendParked := false } .writeError .sender)
-    else if k.qParked then some (beginCloseQ { k with qParked := false } .writeError)
+    else if k.sendParked then some (closeGone { k with sendParked := false } .writeError .sender)
+    else if k.qParked then some (closeGone { k with qParked := false } .writeError .queue)
     else none
   | .disconnect r =>
     match k.st with
-    | .connecting => some (closeConnecting k r)
-    | .connected => some (beginClose k r .other)
+    | .connecting | .connected => some (startClose k r .other)
     | .closing | .closed => some (k, [])
     | .uninit => none
   | .closeDone =>
-    if k.closer = .none then none
-    else
-      let (k', e) := cont { k with st := .closed, registered := false, closer := .none } k.closer
-      some (k', [Ev.st .closed .unknown] ++ e)
+    if k.closer ≠ .none ∧ k.cph = .waiting then some (reportClosed k) else none
   | .send m =>
     match k.st with
     | .closing | .closed => some (k, [.sendRes true])          -- "not sending message, connection is closing"
@@ -252,18 +366,30 @@ def stepK (k : K) : COp → Option (K × List Ev)
       match m with
       | .ok => some (k, [.wrote, .sendRes true])
       | .block => if k.sendParked then none else some ({ k with sendParked := true }, [.wrote])
-      | .fail => some (beginClose k .writeError .sender)
+      | .fail => some (closeGone k .writeError .sender)
+  | .sendData m =>
+    if ¬ k.typF ∨ k.st = .uninit then none
+    else if ¬ k.sock then some (k, [.sendRes false])           -- no writer / writer closed: ConnectionWriteError
+    else match m with
+      | .ok => some (k, [.wroteRaw, .sendRes true])            -- (no `_is_closing` guard on this path)
+      | .block => if k.sendParked then none else some ({ k with sendParked := true }, [.wroteRaw])
+      | .fail =>
+        if k.st = .connected then some (closeGone k .writeError .sender)
+        else some (andThen (wakeAll { k with sock := false }) fun k => (k, [.sendRes false]))
+  | .recvData =>
+    if ¬ k.typF ∨ ¬ k.att.over ∨ k.st = .uninit ∨ k.reader then none
+    else some ({ k with reader := k.sock }, [])
   | .drainOk =>
-    if ¬ (k.sendParked ∨ k.qParked ∨ k.att = .sendingInit) then none
+    if ¬ k.sock ∨ ¬ (k.sendParked ∨ k.qParked ∨ k.att = .sendingInit) then none
     else
       let a := if k.att = .sendingInit then finalizeOut k else (k, [])
       let a := andThen a fun k => if k.sendParked then ({ k with sendParked := false }, [.sendRes true]) else (k, [])
       some (andThen a fun k => if k.qParked then ({ k with qParked := false }, [.queueRes .ret]) else (k, []))
   | .sendTimeout ofAttempt =>
     if ofAttempt then
-      if k.att = .sendingInit then some (beginClose { k with att := .idle } .timeout .attempt) else none
+      if k.att = .sendingInit then some (startClose { k with att := .idle } .timeout .attempt) else none
     else
-      if k.sendParked then some (beginClose { k with sendParked := false } .timeout .sender) else none
+      if k.sendParked then some (startClose { k with sendParked := false } .timeout .sender) else none
   | .queue m =>
     match k.st with
     | .closing | .closed => some (k, [.queueRes .ret])         -- "not sending message, connection is closing"
@@ -273,25 +399,53 @@ def stepK (k : K) : COp → Option (K × List Ev)
       match m with
       | .ok => some (k, [.wrote, .queueRes .ret])
       | .block => if k.qParked then none else some ({ k with qParked := true }, [.wrote])
-      | .fail => some (beginCloseQ k .writeError)
+      | .fail => some (closeGone k .writeError .queue)
   | .queueTimeout =>
-    if k.qParked then some (beginCloseQ { k with qParked := false } .timeout) else none
+    if k.qParked ∧ k.sock then some (startClose { k with qParked := false } .timeout .queue) else none
   | .restart =>
     if k.origin = .server ∧ k.st = .closed ∧ k.att = .idle ∧ k.closer = .none then
-      some ({ k with st := .connecting, att := .opening }, [.st .connecting .unknown])
+      some ({ k with st := .connecting, att := .noteConnecting }, [.st .connecting .unknown])
     else none
 
-/-- a new connection object and what happens up to its first suspension -/
+def stepF (k : K) : FOp → Option (K × List Ev)
+  | .op o => stepOp k o
+  | .noteA m => noteA k m
+  | .noteC => noteC k
+  | .parkA => parkA k
+  | .parkC => parkC k
+
+/-- no listener suspends: every outstanding notification passes, one after the other -/
+def settle (m : SendMode) : Nat → K × List Ev → K × List Ev
+  | 0, r => r
+  | n + 1, (k, e) =>
+    match noteA k m with
+    | some (k', e') => settle m n (k', e ++ e')
+    | none =>
+      match noteC k with
+      | some (k', e') => settle m n (k', e ++ e')
+      | none => (k, e)
+
+def modeOf : COp → SendMode
+  | .connectOk m => m
+  | _ => .ok
+
+/-- one op when no listener suspends (runs up to the next quiescent point) -/
+def stepK (k : K) (op : COp) : Option (K × List Ev) :=
+  (stepOp k op).map (settle (modeOf op) 8)
+
+/-- a new connection object and what happens up to its first notification -/
 def newK (o : Origin) (typF slow : Bool) : K × List Ev :=
   match o with
   | .incoming =>
-    -- accept: CONNECTED is reported, `on_peer_accepted` registers it and waits for the init message
-    ({ origin := o, typF := typF, slow := slow, st := .connected, att := .awaitInit, reader := false, sock := true,
-       closer := .none, sendParked := false, qParked := false, registered := true }, [.st .connected .unknown])
+    -- accept: CONNECTED is reported (which registers the connection); `on_peer_accepted` follows
+    ({ origin := o, typF := typF, slow := slow, st := .connected, att := .noteConnected, reader := false, sock := true,
+       closer := .none, cph := .noteClosed, cr := .unknown, sendParked := false, qParked := false, registered := true },
+     [.st .connected .unknown])
   | _ =>
-    -- created, registered (peers), `connect()` reports CONNECTING and parks in open_connection
-    ({ origin := o, typF := typF, slow := slow, st := .connecting, att := .opening, reader := false, sock := false,
-       closer := .none, sendParked := false, qParked := false, registered := o ≠ .server }, [.st .connecting .unknown])
+    -- created, registered (peers), `connect()` reports CONNECTING; `open_connection` follows
+    ({ origin := o, typF := typF, slow := slow, st := .connecting, att := .noteConnecting, reader := false, sock := false,
+       closer := .none, cph := .noteClosed, cr := .unknown, sendParked := false, qParked := false,
+       registered := o ≠ .server }, [.st .connecting .unknown])
 
 structure Conn where
   k : K
@@ -303,18 +457,28 @@ structure Net where
   deriving Repr
 
 inductive Op
-  | new (o : Origin) (typF slow : Bool)
-  | at (i : Nat) (op : COp)
+  | new (o : Origin) (typF slow : Bool)     -- no listener suspends
+  | at (i : Nat) (op : COp)                 -- no listener suspends
+  | newF (o : Origin) (typF slow : Bool)    -- fine-grained: stops at the first notification
+  | atF (i : Nat) (op : FOp)                -- fine-grained
   deriving Repr
 
 def Net.step (n : Net) : Op → Net
-  | .new o t s => let (k, e) := newK o t s; { conns := n.conns ++ [{ k := k, evs := e }] }
+  | .new o t s => let (k, e) := settle .ok 8 (newK o t s); { conns := n.conns ++ [{ k := k, evs := e }] }
+  | .newF o t s => let (k, e) := newK o t s; { conns := n.conns ++ [{ k := k, evs := e }] }
   | .at i op =>
     match n.conns[i]? with
     | none => n
     | some c =>
       match stepK c.k op with
       | none => n           -- the op is not enabled in this state: nothing happens
+      | some (k', out) => { conns := n.conns.set i { k := k', evs := c.evs ++ out } }
+  | .atF i op =>
+    match n.conns[i]? with
+    | none => n
+    | some c =>
+      match stepF c.k op with
+      | none => n
       | some (k', out) => { conns := n.conns.set i { k := k', evs := c.evs ++ out } }
 
 def run (ops : List Op) : Net := ops.foldl Net.step {}
@@ -329,7 +493,9 @@ def states : List Ev → List CState
 def Net.registry (n : Net) : List Nat :=
   (List.range n.conns.length).filter fun i => match n.conns[i]? with | some c => c.k.registered | none => false
 
-/-- the connection's transport is not yet fully closed, or a still-running attempt is opening it -/
-def K.live (k : K) : Bool := k.sock || k.closer != .none || k.att == .opening
+/-- the connection's transport is not yet fully closed (a `disconnect` is still at work), or a still-running attempt
+is opening it -/
+def K.live (k : K) : Bool :=
+  k.sock || k.st == .closing || k.att == .opening || k.att == .noteConnecting
 
 end AioslskVerif.Conn
